@@ -25,9 +25,12 @@ func CloneNode(node ast.Node) ast.Node {
 		for i, v := range n.Lhs {
 			variables[i] = CloneExpression(v)
 		}
-		values := make([]ast.Expression, len(n.Rhs))
-		for i, v := range n.Rhs {
-			variables[i] = CloneExpression(v)
+		var values []ast.Expression
+		if n.Rhs != nil {
+			values = make([]ast.Expression, len(n.Rhs))
+			for i, v := range n.Rhs {
+				values[i] = CloneExpression(v)
+			}
 		}
 		return ast.NewAssignment(ClonePosition(n.Position), variables, n.Type, values)
 
